@@ -2,19 +2,26 @@ package main
 
 import (
 	"bufio"
+	"context"
 	"fmt"
 	"io"
 	"net"
 	"runtime"
+	"strconv"
 	"strings"
 	"sync"
+	"sync/atomic"
 	"time"
 
 	exserver "github.com/cybergarage/go-redis/examples/go-redisd/server"
+	"github.com/cybergarage/go-redis/redis"
+	"github.com/cybergarage/go-tracing/tracer"
+	"github.com/cybergarage/go-tracing/tracer/common"
 )
 
 func init() {
 	opRunners["conc4"] = runConc4
+	opRunners["conc20"] = runConc20
 }
 
 // conc4Line: a preload program and, per connection, a pipeline of read-only requests with (large) array replies.
@@ -174,4 +181,108 @@ func countRequests(segs [][]byte) int {
 		all = rest
 	}
 	return n
+}
+
+// ---------------------------------------------------------------------------------------------------
+// conc20: spans stay balanced when requests of several connections contend (C20)
+// ---------------------------------------------------------------------------------------------------
+
+// lockedTracer is the recording tracer made safe for several connections (span ids are global, every start names its
+// parent, so one log holds the events of all connections).
+type lockedTracer struct {
+	mu sync.Mutex
+	recTracer
+}
+
+type lockedSpan struct {
+	t  *lockedTracer
+	id int
+}
+
+func (s *lockedSpan) SetTag(string, any) {}
+func (s *lockedSpan) Finish() {
+	s.t.mu.Lock()
+	defer s.t.mu.Unlock()
+	s.t.log.add(fmt.Sprintf("fin:%d", s.id))
+}
+func (s *lockedSpan) Context() context.Context { return context.Background() }
+func (s *lockedSpan) StartSpan(name string) tracer.Context {
+	return common.NewSpanContextWith(s.t.span(s.id, name))
+}
+func (t *lockedTracer) span(parent int, name string) *lockedSpan {
+	t.mu.Lock()
+	defer t.mu.Unlock()
+	t.next++
+	t.log.add(fmt.Sprintf("start:%d:%d:%s", t.next, parent, name))
+	return &lockedSpan{t, t.next}
+}
+func (t *lockedTracer) StartSpan(name string) tracer.Context {
+	return common.NewSpanContextWith(t.span(0, "root"))
+}
+
+// case: "conc20 <clients> <requests> <seed>": <clients> connections send <requests> commands each at the same time
+// (plain, composed, failing, unknown) to a server with a recording tracer and a handler that yields inside every call, so
+// that requests wait for each other; afterwards the span events of all connections must be balanced.
+func runConc20(toks []string) Result {
+	clients, _ := strconv.Atoi(toks[1])
+	nreq, _ := strconv.Atoi(toks[2])
+	seed, _ := strconv.ParseUint(toks[3], 10, 64)
+	tags := []string{"nt", "conc-spans", "clients" + toks[1]}
+	srv := redis.NewServer()
+	tr := &lockedTracer{}
+	tr.log = &eventLog{}
+	srv.SetTracer(tr)
+	srv.SetCommandHandler(&linStore{double: &double{log: &eventLog{}}, m: map[string]string{}, jitter: seed})
+	var wg, swg sync.WaitGroup
+	var failed atomic.Bool
+	var answered atomic.Int64
+	start := make(chan struct{})
+	menu := [][]string{{"GET", "k"}, {"SET", "k", "v"}, {"STRLEN", "k"}, {"INCR", "n"}, {"APPEND", "k", "x"}, {"MSETNX", "a", "1", "b", "2"}, {"GET"}, {"NOSUCH", "x"}, {"PING"}, {"INCR", "k"}}
+	for c := 0; c < clients; c++ {
+		cl, sv := net.Pipe()
+		swg.Add(1)
+		go func() {
+			defer swg.Done()
+			defer func() { recover() }()
+			srv.VerifServeConn(sv, nil)
+		}()
+		wg.Add(1)
+		go func(c int) {
+			defer wg.Done()
+			defer cl.Close()
+			r := NewRng(seed + uint64(c)*977)
+			br := bufio.NewReader(cl)
+			<-start
+			for i := 0; i < nreq; i++ {
+				cl.SetDeadline(time.Now().Add(10 * time.Second))
+				if _, err := cl.Write(reqS(menu[r.Intn(len(menu))]...)); err != nil {
+					failed.Store(true)
+					return
+				}
+				if _, err := readReply(br); err != nil {
+					failed.Store(true)
+					return
+				}
+				answered.Add(1)
+			}
+		}(c)
+	}
+	close(start)
+	wg.Wait()
+	swg.Wait()
+	if failed.Load() {
+		return Result{Obs: "unanswered", Oracle: "fail:a client got no reply", Tags: tags}
+	}
+	tr.mu.Lock()
+	events := append([]string{}, tr.log.evs...)
+	tr.mu.Unlock()
+	f, roots := spanBalance(events)
+	if f != "" {
+		return Result{Obs: "unbalanced", Oracle: f, Tags: tags}
+	}
+	// one root per request, plus one per connection for the iteration that saw the end of the stream
+	if want := int(answered.Load()) + clients; roots != want {
+		return Result{Obs: "unbalanced", Oracle: fmt.Sprintf("fail:%d root spans for %d requests on %d connections", roots, answered.Load(), clients), Tags: tags}
+	}
+	return Result{Obs: "balanced", Oracle: "ok", Tags: tags}
 }
